@@ -11,7 +11,9 @@
    (limbs <<hi, lo>>, <<-1, -1>> = not identified) the recorder IDENTIFIED for the first and the last
    returned sample by matching their values against the Jakes sum; ph is the phase draw whose sum
    matched; inner says that every sample in between matched at first + j; same says that the stored
-   block of every other generator (and of this one for non-generating calls) did not change.
+   block of every other generator (and of this one for non-generating calls) did not change; kept says
+   that EVERY array returned by an earlier call (held by the recorder, not copied) still has the values
+   it was returned with.
    The request sizes n are arbitrary (1 .. 10^5), not restricted to an alphabet.
 
    mismatch = <<>> until the first event whose logged observation differs from what the machine
@@ -22,7 +24,7 @@ EXTENDS Jakes, IOUtils
 Traces == JsonDeserialize(IOEnv.TRACE_FILE)
 
 VARIABLES tid, i, mismatch
-tvars == <<gens, draws, len, ret, tid, i, mismatch>>
+tvars == <<gens, draws, nbuf, len, ret, tid, i, mismatch>>
 
 TInit == /\ Init
          /\ tid \in 1..Len(Traces)
@@ -42,7 +44,8 @@ BlockDiff(e, b) ==
   ELSE ""
 
 Diff(e, r) ==
-  IF e.op \in {"gen", "gendefault"} THEN (IF e.raised THEN "raised" ELSE BlockDiff(e, r.exp))
+  IF ~e.kept THEN "earlier"        \* EarlierBlocksUnchanged: an array returned by an earlier call changed
+  ELSE IF e.op \in {"gen", "gendefault"} THEN (IF e.raised THEN "raised" ELSE BlockDiff(e, r.exp))
   ELSE IF e.op = "construct" THEN BlockDiff(e, r.exp)
   ELSE IF e.op = "similar" THEN (IF ~e.same THEN "same" ELSE BlockDiff(e, r.exp))
   ELSE IF ~e.same THEN "same" ELSE ""
